@@ -185,7 +185,12 @@ def kids(e):
     if hasattr(e, "exprs"):
         out = []
         for s in e.exprs:
-            if type(s) is type(e) and isinstance(e, (pp.And, pp.Or, pp.MatchFirst)) and not s.resultsName and s.skipWhitespace == e.skipWhitespace:
+            # an unnamed nested And/Or/MatchFirst is what pyparsing's streamline() collapses.  A nested And takes its
+            # skipWhitespace from its first member (`word_end + Optional(..)` does not skip because WordEnd does not):
+            # splicing it is the same grammar unless the And itself skips and its first member does not
+            same_ws = s.skipWhitespace == e.skipWhitespace or (
+                isinstance(s, pp.And) and s.exprs and not (s.skipWhitespace and not s.exprs[0].skipWhitespace))
+            if type(s) is type(e) and isinstance(e, (pp.And, pp.Or, pp.MatchFirst)) and not s.resultsName and same_ws:
                 out += kids(s)
             else:
                 out.append(s)
@@ -254,17 +259,25 @@ GIVEN = "/tmp/harm/out-B"
 
 
 def patch_file(path):
-    """a unified diff as an edit set (applied with `patch` on the copy)"""
-    return ("patch", path)
+    """a unified diff as an edit set (applied with `patch` on the copy).  The given diffs are against the tree they
+    were written for; when the parser source has been repaired since (a `fix:` commit touching the same lines), the
+    same rewrite rebased onto the repaired text is in `tests/rebased/<name>` and is tried second."""
+    return ("patch", path, os.path.join(os.path.dirname(os.path.abspath(__file__)), "rebased", os.path.basename(path)))
 
 
 def tree_of(spec):
     if isinstance(spec, tuple) and spec[0] == "patch":
-        d = make_tree({})
-        p = subprocess.run(["patch", "-p1", "-s", "-d", d, "-i", spec[1]], stdout=subprocess.PIPE, stderr=subprocess.STDOUT, text=True)
-        if p.returncode != 0:
-            raise AssertionError("patch %s does not apply: %s" % (spec[1], p.stdout))
-        return d
+        msgs = []
+        for diff in spec[1:]:
+            if not os.path.exists(diff):
+                continue
+            d = make_tree({})
+            p = subprocess.run(["patch", "-p1", "-s", "-d", d, "-i", diff], stdout=subprocess.PIPE, stderr=subprocess.STDOUT, text=True)
+            if p.returncode == 0:
+                return d
+            msgs.append("patch %s does not apply: %s" % (diff, p.stdout))
+            shutil.rmtree(d, ignore_errors=True)
+        raise AssertionError("; ".join(msgs))
     return make_tree(spec)
 
 
@@ -495,6 +508,10 @@ HARMLESS_A64.append(("character classes spelt differently (alphas + nums, digits
     sub('scalar = pp.Word("xwbhsdqXWBHSDQ", exact=1).setResultsName("prefix") + pp.Word(\n            pp.nums\n        )',
         'scalar = pp.Word("xwbhsdqXWBHSDQ", exact=1).setResultsName("prefix") + pp.Word(\n            "0123456789"\n        )'),
     sub('word_end = pp.WordEnd(pp.alphanums + "_.")', 'word_end = pp.WordEnd("_" + pp.alphanums + ".")'))}))
+HARMLESS_A64.append(("word end of shift_op as an element of its own, tail of the register split off and re-associated", {A64: chain(
+    sub('\n            + word_end\n', '\n            + pp.WordEnd("_." + pp.alphas + pp.nums)\n'),
+    sub('                + shift_op.setResultsName("shift_op")\n                + word_end\n                + pp.Optional(immediate).setResultsName("shift")\n',
+        '                + (shift_op("shift_op") + (word_end + pp.Optional(immediate)("shift")))\n'))}))
 HARMLESS_A64.append(("alias tests with truthiness / .get instead of `is not None and \"name\" in`", {A64: within("process_memory_address", chain(
     sub('if base is not None and "name" in base and base["name"].lower() == "sp":', 'if base and base.get("name", "").lower() == "sp":'),
     sub('if index is not None and "name" in index and index["name"].lower() == "zr":', 'if index and "name" in index and "zr" == index["name"].lower():')))}))
@@ -579,6 +596,10 @@ REAL_A64 = [
     ("hex prefix 0x -> 0X", {A64: sub('pp.Literal("0x")', 'pp.Literal("0X")')}),
     ("prefetch policy STRM dropped", {A64: sub('pp.Group(pp.CaselessLiteral("KEEP") ^ pp.CaselessLiteral("STRM"))', 'pp.Group(pp.CaselessLiteral("KEEP"))')}),
     ("results name shift_op -> shiftop in register", {A64: rx(r'(register = pp\.Group\(.*?)shift_op\.setResultsName\("shift_op"\)', r'\1shift_op.setResultsName("shiftop")', flags=re.S)}),
+    ("shift_op no longer ends at a word boundary (register and arith_immediate)", {A64: sub('            + word_end\n', '', 2)}),
+    ("shift_op word end dropped in register only", {A64: sub('\n                + word_end\n', '\n')}),
+    ("shift_op word end with other characters than the one of condition codes", {A64: sub(
+        '\n                + word_end\n', '\n                + pp.WordEnd(pp.alphanums + "_")\n')}),
     ("scale = 2 ** n -> 3 ** n", {A64: sub('scale = 2 ** int(', 'scale = 3 ** int(')}),
     ("default scale 1 -> 0", {A64: within("process_memory_address", sub('        scale = 1\n', '        scale = 0\n'))}),
     ("valid_shift_ops loses uxtb", {A64: sub('valid_shift_ops = ["lsl", "uxtw", "uxtb", "sxtw", "sxtx"]', 'valid_shift_ops = ["lsl", "uxtw", "sxtw", "sxtx"]')}),
